@@ -1152,7 +1152,12 @@ pub const IMPORT_FORMS: &[&str] = &[
     "m := import \"p\"; (m.g, m.G, m.id, m.ID, m.Id)",
     // (28) a path string longer than 255 bytes whose components are all short (it names `p`)
     LONG_DOTTED_IMPORT,
+    // (29, 30) blanks are part of a path; (31) escapes in the path literal are resolved: "\x70" is "p"
+    "import \"p \"",
+    "m := import \" p\"; m",
+    "m := import \"\\x70\"; m",
 ];
+const ESCAPED_P_FORM: usize = 31;
 /// `m := import "./././ ... /p"; m` with 140 `./` components (282 bytes)
 const LONG_DOTTED_IMPORT: &str = "m := import \"./././././././././././././././././././././././././././././././././././././././././././././././././././././././././././././././././././././././././././././././././././././././././././././././././././././././././././././././././././././././././././././././././././././././././././././././p\"; m";
 const LONG_DOTTED_FORM: usize = 28;
@@ -1280,7 +1285,7 @@ pub fn run_import_case(case: &ImportCase, key_seed: u64) -> RunReport {
                 let uses_members = matches!(case.form, 6 | 8);
                 if case.fault.is_none()
                     && case.form != 7
-                    && (case.form <= LAST_PLAIN_FORM || case.form == LONG_DOTTED_FORM)
+                    && (case.form <= LAST_PLAIN_FORM || case.form == LONG_DOTTED_FORM || case.form == ESCAPED_P_FORM)
                     && module_names(MODULE_STATES[case.p_state].0).is_some()
                     && q_ok
                     && (!uses_members || MODULE_STATES[case.p_state].0 == "valid")
@@ -1288,10 +1293,24 @@ pub fn run_import_case(case: &ImportCase, key_seed: u64) -> RunReport {
                     rep.violation = Some(("readable-import-rejected".into(), format!("{desc}: every file is readable and well-formed, but parsing reports {}", cerror(&e))));
                     return rep;
                 }
-                // a failed read of the first file read must surface as an IO error of that kind
+                // a failed read must surface as an error that IS or CARRIES the IO error that occurred
+                // (the bare `Error::IO`, or another variant whose source chain holds an io::Error
+                // of that kind or whose text contains the OS message); an unrelated error does not
                 if let Some(c) = calls.first() {
-                    if let CallResult::Err(kind, _) = &c.result {
-                        let ok = matches!(&e, Error::IO(io) if io.kind() as i64 == *kind);
+                    if let CallResult::Err(kind, msg) = &c.result {
+                        let carries = {
+                            let mut src: Option<&(dyn std::error::Error + 'static)> = std::error::Error::source(&e);
+                            let mut found = false;
+                            while let Some(s) = src {
+                                if let Some(io) = s.downcast_ref::<std::io::Error>() {
+                                    found = found || io.kind() as i64 == *kind;
+                                }
+                                src = s.source();
+                            }
+                            let os_text = msg.split(" (os error").next().unwrap_or(msg);
+                            found || (!os_text.is_empty() && e.to_string().contains(os_text))
+                        };
+                        let ok = matches!(&e, Error::IO(io) if io.kind() as i64 == *kind) || (!matches!(&e, Error::IO(_)) && carries);
                         if !ok && calls.len() == 1 {
                             rep.violation = Some(("io-error-lost".into(), format!("{desc}: reading the file failed with kind {kind} but parse reports {}", cerror(&e))));
                         }
@@ -1302,7 +1321,7 @@ pub fn run_import_case(case: &ImportCase, key_seed: u64) -> RunReport {
                 rep.log.push(format!("{desc} -> Ok"));
                 // the path as written cannot be read (the model's read of that spelling fails on
                 // the initial tree, no fault involved): the program must not be accepted
-                if case.fault.is_none() {
+                if case.fault.is_none() && case.form != ESCAPED_P_FORM {
                     if let Some(lit) = text.split("import \"").nth(1).and_then(|r| r.split('"').next()) {
                         let mut dry = pre_state.clone();
                         if let Err(e) = simplesl_verif_seams::fs::model_apply(&mut dry, "read_to_string", &[lit.to_string()]) {
@@ -1321,7 +1340,7 @@ pub fn run_import_case(case: &ImportCase, key_seed: u64) -> RunReport {
                 rep.events += 1;
                 match r {
                     Err(p) => rep.violation = Some(("exec-panic".into(), format!("executing accepted {desc} panicked: {p}"))),
-                    Ok(Ok(v)) if case.fault.is_none() && (case.form <= 1 || case.form == 9 || case.form == LONG_DOTTED_FORM) && module_names(MODULE_STATES[case.p_state].0).is_some() => {
+                    Ok(Ok(v)) if case.fault.is_none() && (case.form <= 1 || case.form == 9 || case.form == LONG_DOTTED_FORM || case.form == ESCAPED_P_FORM) && module_names(MODULE_STATES[case.p_state].0).is_some() => {
                         let module = match (&v, case.form) {
                             (Variable::Tuple(t), 9) => {
                                 // the importer's own names are untouched
